@@ -94,6 +94,9 @@ def run(tier, seed, findings):
     from prosemirror.transform import structure
 
     install_probe()
+    from . import c11 as _c11
+
+    _c11.install_probe()
     rec = Recorder("C18")
     rnd = random.Random(seed)
     for name in SCHEMAS:
@@ -129,7 +132,10 @@ def run(tier, seed, findings):
                                 with time_limit(2):
                                     tr = run_op(name, doc, op, f, t, payload)
                             except Timeout:
-                                rec.violation("op-hangs", "no return within 2 s", call, events=["fitter"])
+                                rec.violation("op-hangs", "no return within 2 s", call)
+                                continue
+                            except _c11.FitterNoProgress:
+                                rec.count("fitter does not terminate (C11's known finding)")
                                 continue
                             except Exception as e:  # noqa: BLE001
                                 rec.count(f"raised {type(e).__name__} (C11's subject)")
